@@ -80,3 +80,16 @@ package baseapp
 //@   trusted last committed version of the root multistore
 //@   pure_fn
 //@   ensures result == lastHeight(app)
+
+// custom queries: the querier runs on a context over a separately loaded snapshot of the requested
+// version - never over the live commit multistore - and nothing is flushed
+//@ func handleQueryCustom$querier
+//@   trusted any querier: may change anything reachable through its context; recorded as a call event
+//@   params ctx path req
+//@   modifies all
+//@   ensures querierN == old(querierN) + 1 && cmsWriteN == old(cmsWriteN) && querierIsolated == isSnapshot(dyn(ctx, types.Context).ms)
+//@ func handleQueryCustom
+//@   props C11
+//@   modifies all
+//@   ensures [querier-on-snapshot] querierN != old(querierN) ==> querierIsolated
+//@   ensures [nothing-flushed] cmsWriteN == old(cmsWriteN)
